@@ -22,6 +22,8 @@ import (
 	"io"
 	"os"
 	"os/exec"
+	"path/filepath"
+	"runtime"
 	"strconv"
 	"strings"
 	"sync"
@@ -188,7 +190,7 @@ type c08Filter struct {
 	ok    bool
 }
 
-const c08MaxSteps = 4000
+const c08MaxSteps = 1500
 const c08MaxMag = int64(1) << 40
 
 type c08V struct {
@@ -596,14 +598,12 @@ type c08Result struct {
 	Msgs []string `json:"msgs,omitempty"`
 }
 
-type c08Budget struct{}
-
 const c08JobTimeout = 300 * time.Second
 
 // Function.Eval calls allowed per step on the implementation. An admissible step needs fewer than
-// c08MaxSteps of them; the bound must stay small because a runaway recursion makes slip's variable
+// c08MaxSteps of them (the filter counts every node it evaluates, slip only the non-atomic ones); the bound must stay small because a runaway recursion makes slip's variable
 // lookup walk an ever longer chain of scopes (quadratic time).
-const c08EvalBudget = 2*c08MaxSteps + 100
+const c08EvalBudget = c08MaxSteps + 100
 
 func c08Show(v slip.Object, suffix string) string {
 	switch tv := v.(type) {
@@ -624,28 +624,45 @@ func c08Show(v slip.Object, suffix string) string {
 	return "v:" + strings.ReplaceAll(slip.ObjectString(v), " ", "_")
 }
 
-// c08Protect evaluates fn and renders the outcome in the model's reply vocabulary.
+// c08Protect evaluates fn and renders the outcome in the model's reply vocabulary. The evaluation
+// runs in its own goroutine: when the evaluation budget is exhausted the InterruptCheck hook ends
+// the goroutine with runtime.Goexit (deferred calls run, nothing is re-panicked). Unwinding a deep
+// recursion with a Go panic instead makes every Function.Eval frame recover and panic again,
+// which nests panics on top of the stack until the runtime's stack limit kills the process.
 func c08Protect(suffix string, fn func() slip.Object) (out string, msg string) {
-	defer func() {
-		if r := recover(); r != nil {
-			switch tr := r.(type) {
-			case c08Budget:
-				out = "diverged"
-			case *slip.Panic:
-				out = "e:" + strings.ToLower(string(tr.Hierarchy()[0]))
-				msg = tr.Message
-			case slip.Instance:
-				out = "e:" + strings.ToLower(string(tr.Hierarchy()[0]))
-			case error:
-				out = "e:go-error"
-				msg = tr.Error()
-			default:
-				out = "e:go-panic"
-				msg = fmt.Sprint(r)
+	type reply struct{ out, msg string }
+	ch := make(chan reply, 1)
+	go func() {
+		finished := false
+		defer func() {
+			if finished {
+				return
 			}
-		}
+			r := recover()
+			if r == nil {
+				ch <- reply{"diverged", ""} // Goexit from the budget hook
+				return
+			}
+			var rp reply
+			switch tr := r.(type) {
+			case *slip.Panic:
+				rp = reply{"e:" + strings.ToLower(string(tr.Hierarchy()[0])), tr.Message}
+			case slip.Instance:
+				rp = reply{"e:" + strings.ToLower(string(tr.Hierarchy()[0])), ""}
+			case error:
+				rp = reply{"e:go-error", tr.Error()}
+			default:
+				rp = reply{"e:go-panic", fmt.Sprint(r)}
+			}
+			ch <- rp
+		}()
+		v := fn()
+		res := c08Show(v, suffix)
+		finished = true
+		ch <- reply{res, ""}
 	}()
-	return c08Show(fn(), suffix), ""
+	r := <-ch
+	return r.out, r.msg
 }
 
 func c08RunVariant(job *c08Job) *c08Result {
@@ -656,7 +673,7 @@ func c08RunVariant(job *c08Job) *c08Result {
 	scope.InterruptCheck = func() {
 		budget++
 		if budget > c08EvalBudget {
-			panic(c08Budget{})
+			runtime.Goexit()
 		}
 	}
 	sfx := job.Suffix
@@ -854,6 +871,7 @@ type c08Proc struct {
 }
 
 var c08Root = "/verif"
+var c08CrashLog = "" // jobs on which a worker died are appended here (debugging aid)
 
 func c08Spawn() *c08Proc {
 	cmd := exec.Command(os.Args[0], "C08-worker", "--root", c08Root)
@@ -930,6 +948,14 @@ func c08RunJobs(jobs []*c08Job, nw int) []*c08Result {
 				var res c08Result
 				if werr != nil || rerr != nil || json.Unmarshal(line, &res) != nil || res.ID != jobs[k].ID {
 					// the worker died on this job (Go fatal error): host crash
+					if c08CrashLog != "" {
+						mu.Lock()
+						if f, e := os.OpenFile(c08CrashLog, os.O_APPEND|os.O_CREATE|os.O_WRONLY, 0o644); e == nil {
+							_, _ = f.Write(append(b, '\n'))
+							_ = f.Close()
+						}
+						mu.Unlock()
+					}
 					_ = p.cmd.Process.Kill()
 					_ = p.cmd.Wait()
 					results[k] = &c08Result{ID: jobs[k].ID, Outs: nil}
@@ -1218,6 +1244,8 @@ func c08Replay(c *lib.Ctx) {
 
 func runC08(c *lib.Ctx) {
 	c08Root = c.Root
+	c08CrashLog = filepath.Join(c.OutDir, "crashed-jobs.jsonl")
+	_ = os.Remove(c08CrashLog)
 	if c.Replay != "" {
 		c08Replay(c)
 		return
